@@ -84,8 +84,19 @@ namespace awkward {
   }
 
   template <typename T>
+  int64_t
+  index_bytelength(int64_t length) {
+    if (length < 0  ||  length > kMaxInt64 / (int64_t)sizeof(T)) {
+      throw std::invalid_argument(
+        std::string("Index length ") + std::to_string(length)
+        + std::string(" is negative or too large") + FILENAME(__LINE__));
+    }
+    return length * (int64_t)sizeof(T);
+  }
+
+  template <typename T>
   IndexOf<T>::IndexOf(int64_t length, kernel::lib ptr_lib)
-    : ptr_(kernel::malloc<T>(ptr_lib, length * (int64_t)sizeof(T)))
+    : ptr_(kernel::malloc<T>(ptr_lib, index_bytelength<T>(length)))
     , ptr_lib_(ptr_lib)
     , offset_(0)
     , length_(length)
